@@ -15,6 +15,9 @@ MCRangesQ   == {<<1, 2>>, <<0, 4>>, <<3, 3>>, <<2, 2>>, <<1, 4>>, <<4, 0>>}
 MCKWrites   == {{1}, {2, 3}, {5}}
 MCRangesT   == {<<1, 2>>, <<3, 3>>, <<2, 2>>, <<1, 0>>}
 MCKWritesT  == {{2, 3}}
+\* two queues: a copy of an unrelated range is processed while a kernel of the other queue runs
+MCRangesK   == {<<4, 2>>, <<2, 2>>, <<0, 1>>}
+MCKWritesK  == {{2, 3}}
 MCRangesE   == {<<1, 0>>, <<1, 2>>, <<2, 2>>, <<4, 0>>}
 MCKWritesQ  == {{2, 3}, {1}}
 \* buffers smaller than their page: bytes 1, 3, 5 are mapped but belong to no buffer
